@@ -83,6 +83,8 @@ pub enum HOp {
     Relayout { layout: u8 },
     /// append a line to a default-ignored or binary file (C19)
     Extra { which: u8, ai: bool },
+    /// repeat the last checkpoint verbatim (C14)
+    RepeatCheckpoint { times: u8 },
 }
 
 impl HOp {
@@ -131,6 +133,7 @@ impl HOp {
             HOp::HumanCheckpoint { .. } => "human-checkpoint",
             HOp::Relayout { .. } => "notes-relayout",
             HOp::Extra { .. } => "extra-file",
+            HOp::RepeatCheckpoint { .. } => "repeat-checkpoint",
         }
     }
 }
@@ -1240,6 +1243,13 @@ impl Engine {
                 }
                 rep.class(format!("extra:{}", path));
             }
+            HOp::RepeatCheckpoint { times } => {
+                for _ in 0..(*times).clamp(1, 3) {
+                    if self.w.repeat_last_checkpoint().is_none() {
+                        out.class = OpClass::Skipped;
+                    }
+                }
+            }
             HOp::HumanCheckpoint { file } => {
                 let p = self.path_of(*file);
                 self.w.checkpoint_human(&[&p]);
@@ -1257,7 +1267,9 @@ impl Engine {
                     6 => vec!["stash", "list"],
                     _ => vec!["diff", "--cached", "--stat"],
                 };
-                self.w.git(&args);
+                // (no clock tick: read-only commands must not shift the pinned dates of twins)
+                let r = self.w.repo.clone();
+                self.w.sb.git_in_notick(&r, &args);
                 if let Some(b) = before {
                     self.compare_digest(&b, kind, rep);
                 }
@@ -1673,7 +1685,8 @@ impl Engine {
                     if let Some(s) = snap {
                         self.check_preserved(&s, kind, rep);
                     }
-                    if self.checks.preservation && !c && !*no_commit {
+                    if self.checks.preservation && !*no_commit {
+                        // (lines chosen inside resolved conflict regions are exempt in there)
                         self.check_carried_from(&b, n, kind, rep);
                     }
                     if self.checks.safety {
@@ -1716,8 +1729,20 @@ impl Engine {
                 if let Some(s) = snap {
                     self.check_preserved(&s, kind, rep);
                 }
-                if self.checks.preservation && !out.conflicted && out.ok {
+                if self.checks.preservation && out.ok {
+                    let before_n = rep.violations.len();
                     self.check_carried_from(&b, avail, kind, rep);
+                    if out.conflicted {
+                        // F34: the squash stopped on a conflict, the wrapper's post hook skipped
+                        for v in rep.violations.iter_mut().skip(before_n) {
+                            if v.sig.ends_with(":attribution-not-carried-by-merge-squash") {
+                                v.sig = sig(self.pid, "squash-merge-with-conflict-loses-attribution");
+                            }
+                        }
+                    }
+                }
+                if out.conflicted && out.ok && self.known_taint.is_none() {
+                    self.known_taint = Some("squash-merge-with-conflict-loses-attribution");
                 }
                 if self.checks.safety {
                     self.check_safety(rep, kind);
